@@ -454,7 +454,8 @@ def class_order(graph, rng):
     classes = {}
     for i, e in enumerate(graph.edges):
         classes.setdefault(edge_class(e), []).append(i)
-    keys = sorted(classes, key=lambda k: (RANK.get(k[0], 4), str(k)))
+    # rare database steps first; among the others, the ones that start from a file whose cycles a split has re-numbered
+    keys = sorted(classes, key=lambda k: (0 if "split" in k and k[0] in RANK else RANK.get(k[0], 4), str(k)))
     for k in keys:
         rng.shuffle(classes[k])
     order = []
@@ -1134,7 +1135,7 @@ def run(rep, tier, seed, parts=("db", "run")):
     try:
         serial = _SELFTEST or os.environ.get("C06_PROCS", "4") == "1"
         # ---- plan the real-code work ----
-        budgets = {"wide": 900 if thorough else 80, "narrow": 600 if thorough else 45, "births": 400 if thorough else 30}
+        budgets = {"wide": 900 if thorough else 70, "narrow": 600 if thorough else 60, "births": 400 if thorough else 30}
         splits = {"wide": 3 if thorough else 1, "narrow": 2 if thorough else 1, "births": 1}
         loads = {"wide": 0.25, "narrow": 0.25, "births": 1.0}
         ntr, nev, tsplit = (60, 30, 3) if thorough else (8, 16, 1)
